@@ -66,3 +66,10 @@ package bufanalysis
 //@   modifies ghost.buf
 //@   ensures text-format: f != nil ==> r == ite(f.fileInfo != nil, f.fileInfo.ExternalPath(), "<input>") + ":" + decimal(max(1, f.startLine)) + ":" + decimal(max(1, f.startColumn)) + ":" + ite(f.message != "", f.message, ite(f.typeString != "", f.typeString, "FAILURE")) + ite(f.pluginName != "", " (" + f.pluginName + ")", "")
 //@   ensures f == nil ==> r == ""
+//
+// JUnit names each test suite after the same file path the other formats print (minus ".proto").
+//@ func printAsJUnit(writer, fileAnnotations) (err)
+//@   property C20
+//@   modifies heap, ghost.fail, ghost.buf
+//@   reveal pathOf
+//@   assert before "testsuite := xml.StartElement" same-file-as-other-formats: path == ite(hasSuffix(pathOf(annotations[0]), ".proto"), substr(pathOf(annotations[0]), 0, len(pathOf(annotations[0])) - 6), pathOf(annotations[0]))
